@@ -440,6 +440,15 @@ pub struct ABuilt {
     pub ctl: Arc<ACtl>,
     pub base: Option<PathBuf>,
     pub has_phys: bool,
+    /// leaves by node id (for restarts: adapters are rebuilt over the same leaves)
+    pub reg: AReg,
+}
+
+#[derive(Default)]
+pub struct AReg {
+    pub leaf_roots: BTreeMap<u16, AsyncVfsPath>,
+    pub phys_dirs: BTreeMap<u16, PathBuf>,
+    pub reuse: bool,
 }
 
 impl Drop for ABuilt {
@@ -466,14 +475,20 @@ async fn apply_pre(root: &AsyncVfsPath, pre: &[Pre]) -> Result<(), String> {
     Ok(())
 }
 
-fn abuild_rec<'a>(spec: &'a Spec, ctl: &'a Arc<ACtl>, next_id: &'a mut u16, base: &'a mut Option<PathBuf>) -> BoxFuture<'a, Result<AsyncVfsPath, String>> {
+fn abuild_rec<'a>(spec: &'a Spec, ctl: &'a Arc<ACtl>, next_id: &'a mut u16, base: &'a mut Option<PathBuf>, reg: &'a mut AReg) -> BoxFuture<'a, Result<AsyncVfsPath, String>> {
     async move {
         let id = *next_id;
         *next_id += 1;
         match spec {
+            Spec::Mem { .. } if reg.reuse => reg.leaf_roots.get(&id).cloned().ok_or_else(|| "restart: unknown memory leaf".to_string()),
+            Spec::Phys { .. } if reg.reuse => {
+                let dir = reg.phys_dirs.get(&id).cloned().ok_or_else(|| "restart: unknown physical leaf".to_string())?;
+                Ok(AsyncVfsPath::new(PendFS { inner: Box::new(AsyncPhysicalFS::new(&dir)), node: id, ctl: ctl.clone() }))
+            }
             Spec::Mem { pre } => {
                 let r = AsyncVfsPath::new(PendFS { inner: Box::new(AsyncMemoryFS::new()), node: id, ctl: ctl.clone() });
                 apply_pre(&r, pre).await?;
+                reg.leaf_roots.insert(id, r.clone());
                 Ok(r)
             }
             Spec::Phys { pre } => {
@@ -490,11 +505,12 @@ fn abuild_rec<'a>(spec: &'a Spec, ctl: &'a Arc<ACtl>, next_id: &'a mut u16, base
                 }
                 let r = AsyncVfsPath::new(PendFS { inner: Box::new(AsyncPhysicalFS::new(&dir)), node: id, ctl: ctl.clone() });
                 apply_pre(&r, pre).await?;
+                reg.phys_dirs.insert(id, dir.clone());
                 Ok(r)
             }
             Spec::Emb => Err("EmbeddedFS has no async port".into()),
             Spec::Alt { inner, p } => {
-                let ir = abuild_rec(inner, ctl, next_id, base).await?;
+                let ir = abuild_rec(inner, ctl, next_id, base, reg).await?;
                 let sub = if p.is_empty() { ir.clone() } else { ir.join(&p[1..]).map_err(|e| e.to_string())? };
                 sub.create_dir_all().await.map_err(|e| format!("LIBRARY-BUILD-ERROR altroot dir: {}", e))?;
                 Ok(AsyncVfsPath::new(PendFS { inner: Box::new(AsyncAltrootFS::new(sub)), node: id, ctl: ctl.clone() }))
@@ -502,12 +518,12 @@ fn abuild_rec<'a>(spec: &'a Spec, ctl: &'a Arc<ACtl>, next_id: &'a mut u16, base
             Spec::Ovl { layers } => {
                 let mut ls = vec![];
                 for l in layers.iter() {
-                    ls.push(abuild_rec(l, ctl, next_id, base).await?);
+                    ls.push(abuild_rec(l, ctl, next_id, base, reg).await?);
                 }
                 Ok(AsyncVfsPath::new(PendFS { inner: Box::new(AsyncOverlayFS::new(&ls)), node: id, ctl: ctl.clone() }))
             }
             Spec::OvlSub { base: b, dirs } => {
-                let br = abuild_rec(b, ctl, next_id, base).await?;
+                let br = abuild_rec(b, ctl, next_id, base, reg).await?;
                 let mut ls = vec![];
                 for d in dirs {
                     let sub = br.join(&d[1..]).map_err(|e| e.to_string())?;
@@ -525,8 +541,9 @@ pub fn abuild(spec: &Spec, order_seed: u64, permute: bool, pend_seed: u64, pend_
     let ctl = Arc::new(ACtl { order_seed, permute, on: AtomicBool::new(false), rng: Mutex::new(Rng::new(pend_seed)), pend_pct, injected: AtomicU64::new(0), fail_at: AtomicU64::new(0), sticky: AtomicBool::new(false), calls: AtomicU64::new(0), faults_fired: AtomicU64::new(0), rec_on: AtomicBool::new(false), rec: Mutex::new(vec![]) });
     let mut next_id = 0u16;
     let mut base = None;
+    let mut reg = AReg::default();
     let mut st = PollStats::default();
-    let r = drive(std::panic::AssertUnwindSafe(abuild_rec(spec, &ctl, &mut next_id, &mut base)).catch_unwind(), &mut st);
+    let r = drive(std::panic::AssertUnwindSafe(abuild_rec(spec, &ctl, &mut next_id, &mut base, &mut reg)).catch_unwind(), &mut st);
     let r = match r {
         Ok(Ok(x)) => Ok(x),
         Ok(Err(_)) => Ok(Err("LIBRARY-PANIC while creating the initial contents through the async API".to_string())),
@@ -541,7 +558,29 @@ pub fn abuild(spec: &Spec, order_seed: u64, permute: bool, pend_seed: u64, pend_
             return Err(e);
         }
     };
-    Ok(ABuilt { root, ctl, base, has_phys: spec.has_phys() })
+    Ok(ABuilt { root, ctl, base, has_phys: spec.has_phys(), reg })
+}
+
+/// restart: every async adapter is constructed anew over the same leaves
+pub fn areopen(ab: &mut ABuilt, spec: &Spec) -> Result<(), String> {
+    let mut next_id = 0u16;
+    let mut base = ab.base.clone();
+    let mut st = PollStats::default();
+    ab.reg.reuse = true;
+    let on = ab.ctl.on.swap(false, Ordering::SeqCst);
+    let ctl = ab.ctl.clone();
+    let r = drive(std::panic::AssertUnwindSafe(abuild_rec(spec, &ctl, &mut next_id, &mut base, &mut ab.reg)).catch_unwind(), &mut st);
+    ab.ctl.on.store(on, Ordering::SeqCst);
+    ab.reg.reuse = false;
+    match r {
+        Ok(Ok(Ok(root))) => {
+            ab.root = root;
+            Ok(())
+        }
+        Ok(Ok(Err(e))) => Err(e),
+        Ok(Err(_)) => Err("LIBRARY-PANIC while re-creating the async adapters over the same layers".to_string()),
+        Err(e) => Err(e),
+    }
 }
 
 // ------------------------------------------------------------------------------ async exec
